@@ -66,44 +66,48 @@ Print Assumptions C20_sanity_instance.
 
 From NGO Require Import Sem.Sym Sem.Sat Link.Equiv Link.DomainSem.
 
-Theorem C20_domain_overapprox : forall (sym_lt : Ast.sym -> Ast.sym -> Prop) (dom : Ast.pred -> option string) (Q : list Ast.stmt) (I : list gatom) (T : interp), sym_order sym_lt -> (forall (line : nat) (h : Ast.head) (b : list Ast.bodyelem), In (Ast.SRule line h b) Q -> dhead dom Q b (gvars_rule h b) h) -> (forall (a : gatom) (dn : string), In a I -> dom (InlineSem.gpred a) = Some dn -> In (dn, snd a) I) -> stable sym_lt Q I T -> forall (n : string) (vs : list Ast.sym) (dn : string), dom (n, Datatypes.length vs) = Some dn -> T (n, vs) -> T (dn, vs).
+Theorem C20_domain_overapprox : forall (sym_lt : Ast.sym -> Ast.sym -> Prop) (dom : Ast.pred -> option string) (Q : list Ast.stmt) (I : list gatom) (T : interp), (forall (line : nat) (h : Ast.head) (b : list Ast.bodyelem), In (Ast.SRule line h b) Q -> dhead dom Q b (gvars_rule h b) h) -> (forall (a : gatom) (dn : string), In a I -> dom (InlineSem.gpred a) = Some dn -> In (dn, snd a) I) -> stable sym_lt Q I T -> forall (n : string) (vs : list Ast.sym) (dn : string), dom (n, Datatypes.length vs) = Some dn -> T (n, vs) -> T (dn, vs).
 Proof. exact (@DomainSem.domain_overapprox). Qed.
 Print Assumptions C20_domain_overapprox.
 
-Theorem C20_domain_overapprox_split : forall (sym_lt : Ast.sym -> Ast.sym -> Prop) (dom : Ast.pred -> option string) (P DR : list Ast.stmt) (I : list gatom) (T : interp), sym_order sym_lt -> (forall (line : nat) (h : Ast.head) (b : list Ast.bodyelem), In (Ast.SRule line h b) P -> dhead dom (P ++ DR) b (gvars_rule h b) h) -> (forall (line : nat) (h : Ast.head) (b : list Ast.bodyelem), In (Ast.SRule line h b) DR -> exists (dn : string) (args : list Ast.term) (e : bool), h = Ast.HLit (dlit dn args e) /\ dom (dn, Datatypes.length args) = None) -> (forall a : gatom, In a I -> dom (InlineSem.gpred a) = None) -> stable sym_lt (P ++ DR) I T -> forall (n : string) (vs : list Ast.sym) (dn : string), dom (n, Datatypes.length vs) = Some dn -> T (n, vs) -> T (dn, vs).
+Theorem C20_domain_overapprox_split : forall (sym_lt : Ast.sym -> Ast.sym -> Prop) (dom : Ast.pred -> option string) (P DR : list Ast.stmt) (I : list gatom) (T : interp), (forall (line : nat) (h : Ast.head) (b : list Ast.bodyelem), In (Ast.SRule line h b) P -> dhead dom (P ++ DR) b (gvars_rule h b) h) -> (forall (line : nat) (h : Ast.head) (b : list Ast.bodyelem), In (Ast.SRule line h b) DR -> exists (dn : string) (args : list Ast.term) (e : bool), h = Ast.HLit (dlit dn args e) /\ dom (dn, Datatypes.length args) = None) -> (forall a : gatom, In a I -> dom (InlineSem.gpred a) = None) -> stable sym_lt (P ++ DR) I T -> forall (n : string) (vs : list Ast.sym) (dn : string), dom (n, Datatypes.length vs) = Some dn -> T (n, vs) -> T (dn, vs).
 Proof. exact (@DomainSem.domain_overapprox_split). Qed.
 Print Assumptions C20_domain_overapprox_split.
 
-Theorem C20_domain_overapprox_checked : forall (dom : Ast.pred -> option string) (sym_lt : Ast.sym -> Ast.sym -> Prop) (Q : Ast.program) (I : list gatom) (T : interp), sym_order sym_lt -> fragb dom Q = true -> facts_nodomb dom I = true -> stable sym_lt Q I T -> forall (n : string) (vs : list Ast.sym) (dn : string), dom (n, Datatypes.length vs) = Some dn -> T (n, vs) -> T (dn, vs).
+Theorem C20_domain_overapprox_checked : forall (dom : Ast.pred -> option string) (sym_lt : Ast.sym -> Ast.sym -> Prop) (Q : Ast.program) (I : list gatom) (T : interp), fragb dom Q = true -> facts_nodomb dom I = true -> stable sym_lt Q I T -> forall (n : string) (vs : list Ast.sym) (dn : string), dom (n, Datatypes.length vs) = Some dn -> T (n, vs) -> T (dn, vs).
 Proof. exact (@DomainSem.domain_overapprox_checked). Qed.
 Print Assumptions C20_domain_overapprox_checked.
 
-Theorem C20_domain_least_model : forall sym_lt : Ast.sym -> Ast.sym -> Prop, sym_order sym_lt -> forall (low : Ast.pred -> bool) (B Q : Ast.program) (I : list gatom) (T : interp), layered none_pred low B Q -> (forall st : Ast.stmt, In st B -> In st Q /\ InlineSem.stmt_in low st = true) -> stable sym_lt Q I T -> (prog_sat sym_lt (restrK low T) (restrK low T) B /\ (forall a : gatom, In a I -> low (InlineSem.gpred a) = true -> restrK low T a)) /\ (forall M : interp, prog_sat sym_lt M M B -> (forall a : gatom, In a I -> low (InlineSem.gpred a) = true -> M a) -> forall a : gatom, restrK low T a -> M a).
+Theorem C20_domain_least_model : forall (sym_lt : sym -> sym -> Prop) (low : pred -> bool) (B Q : program) (I : list gatom) (T : interp), layered none_pred low B Q -> (forall st : stmt, In st B -> In st Q /\ InlineSem.stmt_in low st = true) -> stable sym_lt Q I T -> (prog_sat sym_lt (restrK low T) (restrK low T) B /\ (forall a : gatom, In a I -> low (InlineSem.gpred a) = true -> restrK low T a)) /\ (forall M : interp, prog_sat sym_lt M M B -> (forall a : gatom, In a I -> low (InlineSem.gpred a) = true -> M a) -> forall a : gatom, restrK low T a -> M a).
 Proof. exact (@DomainSem.domain_least_model). Qed.
 Print Assumptions C20_domain_least_model.
 
-Theorem C20_domain_choice_free : forall sym_lt : Ast.sym -> Ast.sym -> Prop, sym_order sym_lt -> forall (low : Ast.pred -> bool) (B Q1 Q2 : Ast.program) (I1 I2 : list gatom) (T1 T2 : interp), layered none_pred low B Q1 -> layered none_pred low B Q2 -> incl B Q1 -> incl B Q2 -> (forall a : gatom, low (InlineSem.gpred a) = true -> In a I1 <-> In a I2) -> stable sym_lt Q1 I1 T1 -> stable sym_lt Q2 I2 T2 -> InlineSem.agreeK low T1 T2.
+Theorem C20_domain_choice_free : forall (sym_lt : sym -> sym -> Prop) (low : pred -> bool) (B Q1 Q2 : program) (I1 I2 : list gatom) (T1 T2 : interp), layered none_pred low B Q1 -> layered none_pred low B Q2 -> incl B Q1 -> incl B Q2 -> (forall a : gatom, low (InlineSem.gpred a) = true -> In a I1 <-> In a I2) -> stable sym_lt Q1 I1 T1 -> stable sym_lt Q2 I2 T2 -> InlineSem.agreeK low T1 T2.
 Proof. exact (@DomainSem.domain_choice_free). Qed.
 Print Assumptions C20_domain_choice_free.
 
 From NGO Require Import Sem.Sym Sem.Sat Link.DomainSem.
 
-Theorem C20_domain_negation_refuted : forall sym_lt : Ast.sym -> Ast.sym -> Prop, run_create_domain Witnesses.neg_P (("q", 2) :: nil) ("p", 2) = (Witnesses.neg_doms, Ast.Ok Witnesses.neg_DR) /\ (forall a : gatom, In a Witnesses.neg_I -> dom_of Witnesses.neg_doms (InlineSem.gpred a) = None) /\ stable sym_lt (Witnesses.neg_P ++ Witnesses.neg_DR) Witnesses.neg_I Witnesses.neg_T /\ dom_of Witnesses.neg_doms ("p", 2) = Some "__dom_p" /\ Witnesses.neg_T ("p", Witnesses.c1 :: Witnesses.c1 :: nil) /\ ~ Witnesses.neg_T ("__dom_p", Witnesses.c1 :: Witnesses.c1 :: nil).
+Theorem C20_domain_negation_refuted : forall sym_lt : sym -> sym -> Prop, run_create_domain Witnesses.neg_P [("q", 2)] ("p", 2) = (Witnesses.neg_doms, Ok Witnesses.neg_DR) /\ (forall a : gatom, In a Witnesses.neg_I -> dom_of Witnesses.neg_doms (InlineSem.gpred a) = None) /\ stable sym_lt (Witnesses.neg_P ++ Witnesses.neg_DR) Witnesses.neg_I Witnesses.neg_T /\ dom_of Witnesses.neg_doms ("p", 2) = Some "__dom_p" /\ Witnesses.neg_T ("p", [Witnesses.c1; Witnesses.c1]) /\ ~ Witnesses.neg_T ("__dom_p", [Witnesses.c1; Witnesses.c1]).
 Proof. exact (@DomainSem.Witnesses.domain_negation_refuted). Qed.
 Print Assumptions C20_domain_negation_refuted.
 
-Theorem C20_domain_ignores_input_refuted : forall sym_lt : Ast.sym -> Ast.sym -> Prop, run_create_domain Witnesses.inp_P (("a", 1) :: ("d", 1) :: nil) ("b", 1) = (Witnesses.inp_doms, Ast.Ok Witnesses.inp_DR) /\ (forall (line : nat) (h : Ast.head) (b : list Ast.bodyelem), In (Ast.SRule line h b) Witnesses.inp_P -> dhead (dom_of Witnesses.inp_doms) (Witnesses.inp_P ++ Witnesses.inp_DR) b (gvars_rule h b) h) /\ (forall (line : nat) (h : Ast.head) (b : list Ast.bodyelem), In (Ast.SRule line h b) Witnesses.inp_DR -> exists (dn : string) (args : list Ast.term) (e : bool), h = Ast.HLit (dlit dn args e) /\ dom_of Witnesses.inp_doms (dn, Datatypes.length args) = None) /\ In ("a", Witnesses.c5 :: nil) Witnesses.inp_I /\ dom_of Witnesses.inp_doms (InlineSem.gpred ("a", Witnesses.c5 :: nil)) = Some "__dom_a" /\ stable sym_lt (Witnesses.inp_P ++ Witnesses.inp_DR) Witnesses.inp_I Witnesses.inp_T /\ dom_of Witnesses.inp_doms ("b", 1) = Some "__dom_b" /\ Witnesses.inp_T ("b", Witnesses.c5 :: nil) /\ ~ Witnesses.inp_T ("__dom_b", Witnesses.c5 :: nil).
+Theorem C20_domain_ignores_input_refuted : forall sym_lt : sym -> sym -> Prop, run_create_domain Witnesses.inp_P [("a", 1); ("d", 1)] ("b", 1) = (Witnesses.inp_doms, Ok Witnesses.inp_DR) /\ (forall (line : nat) (h : head) (b : list bodyelem), In (SRule line h b) Witnesses.inp_P -> dhead (dom_of Witnesses.inp_doms) (Witnesses.inp_P ++ Witnesses.inp_DR) b (gvars_rule h b) h) /\ (forall (line : nat) (h : head) (b : list bodyelem), In (SRule line h b) Witnesses.inp_DR -> exists (dn : string) (args : list term) (e : bool), h = HLit (dlit dn args e) /\ dom_of Witnesses.inp_doms (dn, Datatypes.length args) = None) /\ In ("a", [Witnesses.c5]) Witnesses.inp_I /\ dom_of Witnesses.inp_doms (InlineSem.gpred ("a", [Witnesses.c5])) = Some "__dom_a" /\ stable sym_lt (Witnesses.inp_P ++ Witnesses.inp_DR) Witnesses.inp_I Witnesses.inp_T /\ dom_of Witnesses.inp_doms ("b", 1) = Some "__dom_b" /\ Witnesses.inp_T ("b", [Witnesses.c5]) /\ ~ Witnesses.inp_T ("__dom_b", [Witnesses.c5]).
 Proof. exact (@DomainSem.Witnesses.domain_ignores_input_refuted). Qed.
 Print Assumptions C20_domain_ignores_input_refuted.
 
-Theorem C20_domain_condition_refuted : forall sym_lt : Ast.sym -> Ast.sym -> Prop, run_create_domain Witnesses.cnd_P (("b", 1) :: ("d", 1) :: nil) ("a", 0) = (Witnesses.cnd_doms, Ast.Ok Witnesses.cnd_DR) /\ (forall a : gatom, In a Witnesses.cnd_I -> dom_of Witnesses.cnd_doms (InlineSem.gpred a) = None) /\ stable sym_lt (Witnesses.cnd_P ++ Witnesses.cnd_DR) Witnesses.cnd_I Witnesses.cnd_T /\ dom_of Witnesses.cnd_doms ("a", 0) = Some "__dom_a" /\ Witnesses.cnd_T ("a", nil) /\ ~ Witnesses.cnd_T ("__dom_a", nil).
+Theorem C20_domain_condition_refuted : forall sym_lt : sym -> sym -> Prop, run_create_domain Witnesses.cnd_P [("b", 1); ("d", 1)] ("a", 0) = (Witnesses.cnd_doms, Ok Witnesses.cnd_DR) /\ (forall a : gatom, In a Witnesses.cnd_I -> dom_of Witnesses.cnd_doms (InlineSem.gpred a) = None) /\ stable sym_lt (Witnesses.cnd_P ++ Witnesses.cnd_DR) Witnesses.cnd_I Witnesses.cnd_T /\ dom_of Witnesses.cnd_doms ("a", 0) = Some "__dom_a" /\ Witnesses.cnd_T ("a", []) /\ ~ Witnesses.cnd_T ("__dom_a", []).
 Proof. exact (@DomainSem.Witnesses.domain_condition_refuted). Qed.
 Print Assumptions C20_domain_condition_refuted.
 
-Theorem C20_model_domains_overapprox : forall sym_lt : Ast.sym -> Ast.sym -> Prop, sym_order sym_lt -> exists (doms : list (Ast.pred * Ast.pred)) (DR : list Ast.stmt), run_create_domain ModelLink.P4 ModelLink.ins4 ("c", 1) = (doms, Ast.Ok DR) /\ (forall (I : list gatom) (T : interp), (forall a : gatom, In a I -> dom_of doms (InlineSem.gpred a) = None) -> stable sym_lt (ModelLink.P4 ++ DR) I T -> forall (n : string) (vs : list Ast.sym) (dn : string), dom_of doms (n, Datatypes.length vs) = Some dn -> T (n, vs) -> T (dn, vs)).
+Theorem C20_model_domains_overapprox : forall sym_lt : Ast.sym -> Ast.sym -> Prop, exists (doms : list (Ast.pred * Ast.pred)) (DR : list Ast.stmt), run_create_domain ModelLink.P4 ModelLink.ins4 ("c", 1) = (doms, Ast.Ok DR) /\ (forall (I : list gatom) (T : interp), (forall a : gatom, In a I -> dom_of doms (InlineSem.gpred a) = None) -> stable sym_lt (ModelLink.P4 ++ DR) I T -> forall (n : string) (vs : list Ast.sym) (dn : string), dom_of doms (n, Datatypes.length vs) = Some dn -> T (n, vs) -> T (dn, vs)).
 Proof. exact (@DomainSem.ModelLink.model_domains_overapprox). Qed.
 Print Assumptions C20_model_domains_overapprox.
 
-Theorem C20_model_domains_choice_free : forall sym_lt : Ast.sym -> Ast.sym -> Prop, sym_order sym_lt -> exists (doms : list (Ast.pred * Ast.pred)) (DR : list Ast.stmt), run_create_domain ModelLink.P4 ModelLink.ins4 ("c", 1) = (doms, Ast.Ok DR) /\ (forall (I1 I2 : list gatom) (T1 T2 : interp), (forall a : gatom, ModelLink.low_dom (InlineSem.gpred a) = true -> In a I1 <-> In a I2) -> stable sym_lt (ModelLink.P4 ++ DR) I1 T1 -> stable sym_lt (ModelLink.P4 ++ DR) I2 T2 -> forall a : gatom, ModelLink.low_dom (InlineSem.gpred a) = true -> T1 a <-> T2 a).
+Theorem C20_model_domains_choice_free : forall sym_lt : Ast.sym -> Ast.sym -> Prop, exists (doms : list (Ast.pred * Ast.pred)) (DR : list Ast.stmt), run_create_domain ModelLink.P4 ModelLink.ins4 ("c", 1) = (doms, Ast.Ok DR) /\ (forall (I1 I2 : list gatom) (T1 T2 : interp), (forall a : gatom, ModelLink.low_dom (InlineSem.gpred a) = true -> In a I1 <-> In a I2) -> stable sym_lt (ModelLink.P4 ++ DR) I1 T1 -> stable sym_lt (ModelLink.P4 ++ DR) I2 T2 -> forall a : gatom, ModelLink.low_dom (InlineSem.gpred a) = true -> T1 a <-> T2 a).
 Proof. exact (@DomainSem.ModelLink.model_domains_choice_free). Qed.
 Print Assumptions C20_model_domains_choice_free.
+
+Theorem C20_lower_bound_cycle_unsat : forall sym_lt : sym -> sym -> Prop, sym_order sym_lt -> (forall (line : nat) (h : head) (b : list bodyelem), In (SRule line h b) Witnesses.lb_Q -> dhead Witnesses.lb_dom Witnesses.lb_Q b (gvars_rule h b) h) /\ ~ static_lit Witnesses.lb_dom (ProjectionSem.Example.at_ "c" []) /\ (forall T : interp, ~ stable sym_lt Witnesses.lb_Q [] T).
+Proof. exact (@DomainSem.Witnesses.lower_bound_cycle_unsat). Qed.
+Print Assumptions C20_lower_bound_cycle_unsat.
